@@ -41,6 +41,11 @@ func (self ValueOption) IsEqual(other Value) (bool, *VmInterrupt) {
 	otherIsSome := otherOpt.IsSome()
 
 	if selfIsSome && otherIsSome {
+		// Options inside any-objects can hold values of different kinds: those are unequal
+		// (the scalar implementations of `IsEqual` assume an operand of their own kind).
+		if (*self.Inner).Kind() != (*otherOpt.Inner).Kind() {
+			return false, nil
+		}
 		return (*self.Inner).IsEqual(*otherOpt.Inner)
 	} else if !selfIsSome && !otherIsSome {
 		return true, nil
